@@ -72,20 +72,13 @@ func drawArbRings(t *rapid.T, maxLen int) (rings [][]P, kinds string) {
 	return rings, kinds
 }
 
-// drawArbCase draws an arbitrary polygon placed inside the grid.
-func drawArbCase(t *rapid.T, grid func(*rapid.T) gen.GridSpec, maxIDs, maxLen int) SnapCase {
-	c := SnapCase{Grid: grid(t), Q: 4}
-	g := c.Grid.MustBuild()
-	c.IDs = gen.IDs(t, g, maxIDs, maxAddressableID(g))
-	c.Flags = gen.DrawFlags(t)
-	c.Flags.Ignore = false
-	rings, kinds := drawArbRings(t, maxLen)
-	c.Shape = kinds
+// placeArb places arbitrary lattice rings (4 steps per pixel) inside the grid at the level of one of the ids.
+func placeArb(t *rapid.T, g *kernel.Grid, ids []int, rings [][]P) (poly [][][2]float64, anchor string) {
 	maxID := 0
-	for _, id := range c.IDs {
+	for _, id := range ids {
 		maxID = max(maxID, id)
 	}
-	focus := c.IDs[rapid.IntRange(0, len(c.IDs)-1).Draw(t, "focus")]
+	focus := ids[rapid.IntRange(0, len(ids)-1).Draw(t, "focus")]
 	lev := kernel.Leveled{G: g, Level: g.LevelOf(focus), Deepest: g.LevelOf(maxID)}
 	var ext int64 = 1
 	for _, r := range rings {
@@ -105,13 +98,25 @@ func drawArbCase(t *rapid.T, grid func(*rapid.T) gen.GridSpec, maxIDs, maxLen in
 		wpx = ext/4 + 2
 	}
 	an, cls := gen.Anchor(t, size, wpx)
-	c.Anchor = cls
 	pl := gen.Placement{L: lev, Q: 4, Anchor: an}
-	c.Poly, _ = pl.Floats(rings)
-	for i := range c.Poly {
-		if c.Poly[i] == nil {
-			c.Poly[i] = [][2]float64{}
+	poly, _ = pl.Floats(rings)
+	for i := range poly {
+		if poly[i] == nil {
+			poly[i] = [][2]float64{}
 		}
 	}
+	return poly, cls
+}
+
+// drawArbCase draws an arbitrary polygon placed inside the grid.
+func drawArbCase(t *rapid.T, grid func(*rapid.T) gen.GridSpec, maxIDs, maxLen int) SnapCase {
+	c := SnapCase{Grid: grid(t), Q: 4}
+	g := c.Grid.MustBuild()
+	c.IDs = gen.IDs(t, g, maxIDs, maxAddressableID(g))
+	c.Flags = gen.DrawFlags(t)
+	c.Flags.Ignore = false
+	rings, kinds := drawArbRings(t, maxLen)
+	c.Shape = kinds
+	c.Poly, c.Anchor = placeArb(t, g, c.IDs, rings)
 	return c
 }
